@@ -51,6 +51,7 @@ func checkC20(env *kernel.Env) {
 	generated := map[int64]bool{} // generated ids ever stored
 	usedV := map[int64]bool{}     // v values present (for planting unique failures)
 	steps := T.Range(4, 30)
+	nIdx := 0
 	holder := func() *sx {
 		for _, x := range sess {
 			if x.inTxn {
@@ -91,7 +92,7 @@ func checkC20(env *kernel.Env) {
 			env.Kind("read")
 			continue
 		}
-		switch a := T.Pick(8, 2, 2, 1, 1, 2, 1, 2); a {
+		switch a := T.Pick(8, 2, 2, 1, 1, 2, 1, 2, 1); a {
 		case 0, 1: // insert (a=1: planted to fail on the unique key at a drawn row)
 			n := T.Range(1, 4)
 			type rowSpec struct {
@@ -389,6 +390,24 @@ func checkC20(env *kernel.Env) {
 		case 7:
 			checkLast(x, who)
 			env.Kind("read")
+		case 8: // a schema change that rewrites the table: the counter is table state and stays
+			if holder() != nil {
+				continue
+			}
+			nIdx++
+			q := []string{
+				fmt.Sprintf("ALTER TABLE t ADD INDEX ix%d (v)", nIdx),
+				"ALTER TABLE t MODIFY v BIGINT",
+				"ALTER TABLE t MODIFY v INT",
+				fmt.Sprintf("CREATE INDEX jx%d ON t (v, id)", nIdx),
+			}[T.Draw(4)]
+			r := x.s.Exec(q)
+			env.Kind("rewriting-alter")
+			env.Logf("%s: %s -> %s", who, q, ErrClass(r.Err))
+			if r.Err != nil {
+				env.Fail("statement-succeeds", "rewriting-alter-failed", "%s: %s failed: %v", who, q, r.Err)
+			}
+			env.Probe("rewriting-alter")
 		}
 	}
 }
